@@ -19,7 +19,7 @@ RUNS = {"quick": 1000000, "thorough": 6000000}
 CHUNK = {"quick": 500, "thorough": 2000}
 PROBES = ["straddles_chunk", "overlapping", "at_offset_0", "at_eof", "limit_inside_occurrence", "leading_zero_needle",
           "needle_len_1", "artifact_hit", "artifact_overlap", "artifact_eof_cut", "artifact_maxrange", "start_none",
-          "needle_longer_than_chunk", "haystack_of_several_default_buffers"]
+          "needle_longer_than_chunk", "haystack_of_several_default_buffers", "defaults_left_out_of_the_call"]
 RULE = ("seeded plans: haystack over a 1-3 symbol or random alphabet (len<=80; 2% of the plans use haystacks of 8-40 KiB with "
         "needles planted around the multiples of 8192 and of B, B from 2 to 20000), needle len 1-9 (incl. leading zero "
         "bytes, planted copies), chunk knob B in 1..12 or around len, start_offset in {None after seek, 0, k}, "
@@ -133,7 +133,7 @@ def _gen_needle(rng):
         start = None if st == "none" else 0 if st == "zero" else rng.randint(0, len(hay) + 2)
         seek = rng.randint(0, len(hay) + 1) if start is None else rng.randint(0, len(hay) + 1)
         mx = 0 if rng.random() < 0.5 else rng.randint(1, len(hay) + 3)
-        scans.append({"start": start, "seek": seek, "max": mx})
+        scans.append({"start": start, "seek": seek, "max": mx, "omit_defaults": rng.random() < 0.5})
     return {"kind": "needle", "hay": hx(hay), "needle": hx(needle), "B": B, "scans": scans}
 
 
@@ -160,7 +160,7 @@ def _gen_artifact(rng):
     seek = rng.randint(0, len(img) + 1)
     maxrange = None if rng.random() < 0.6 else rng.randint(0, len(img) + 2)
     return {"kind": "artifact", "image": hx(img), "start": start, "seek": seek, "maxrange": maxrange,
-            "B": rng.choice([1, 3, 16, 8192])}
+            "B": rng.choice([1, 3, 16, 8192]), "omit_defaults": rng.random() < 0.5}
 
 
 # systematic grid: descriptors; each descriptor enumerates all binary haystacks of one length
@@ -202,7 +202,15 @@ def _scan_needle(res: Result, seam: IoSeam, hay: bytes, needle: bytes, B: int, s
     eff_start = scan["seek"] if start is None else start
     mx = scan["max"]
     try:
-        got = list(iter_find_needle(fh, needle, start_offset=start, max_offset=mx))
+        kw = {"start_offset": start, "max_offset": mx}
+        if scan.get("omit_defaults"):
+            # documented defaults: search from the current position, no limit
+            if start is None:
+                del kw["start_offset"]
+            if mx == 0:
+                del kw["max_offset"]
+            res.probes["defaults_left_out_of_the_call"] += 1
+        got = list(iter_find_needle(fh, needle, **kw))
     except ReadBudgetExceeded:
         res.violate(("C15", "needle", "no_termination"), f"iter_find_needle did not terminate: {plan_for_violation()}",
                     plan_for_violation())
@@ -296,7 +304,15 @@ def _scan_artifact(res: Result, seam: IoSeam, plan: dict):
     start = plan["start"]
     eff = plan["seek"] if start is None else start
     try:
-        got = [tuple(a) for a in iter_artifactkit_payloads(fh, start_offset=start, maxrange=plan["maxrange"])]
+        kw = {"start_offset": start, "maxrange": plan["maxrange"]}
+        if plan.get("omit_defaults"):
+            # documented defaults: start_offset=0 (search from the start), maxrange=None (no limit)
+            if start == 0:
+                del kw["start_offset"]
+            if plan["maxrange"] is None:
+                del kw["maxrange"]
+            res.probes["defaults_left_out_of_the_call"] += 1
+        got = [tuple(a) for a in iter_artifactkit_payloads(fh, **kw)]
     except ReadBudgetExceeded:
         res.violate(("C15", "artifact", "no_termination"), "iter_artifactkit_payloads did not terminate")
         return
